@@ -1,13 +1,13 @@
 #!/bin/bash
 # usage: confirm_round3.sh <group> <property> <name> <demo package dir, e.g. ./internal/types/> "<needs>"
-# Applies /tmp/seed3/<group>/out_<property>.diff and the demo in that scratch worktree and runs confirm_seeded.sh.
+# Applies /tmp/${SEEDROOT:-seed3}/<group>/out_<property>.diff and the demo in that scratch worktree and runs confirm_seeded.sh.
 set -u
 g=$1; prop=$2; name=$3; pkg=$4; needs=$5
-wt=/tmp/seed3/$g
+wt=/tmp/${SEEDROOT:-seed3}/$g
 cd $wt || exit 2
 git checkout -q -- . ; git apply out_$prop.diff || exit 2
 demo=${pkg#./}zz_demo_${prop}_test.go
 cp out_${prop}_demo_test.go.txt $demo
 /verif/tools/confirm_seeded.sh "$name" "$prop" "$wt" "$demo" "$pkg" "TestZZDemo$prop" "$needs"
 rm -f $demo; git checkout -q -- .
-sed -i 's/independent sub-agent given only/independent sub-agent (round 3) given only/' /verif/seeded/$name/meta.json 2>/dev/null
+sed -i 's/independent sub-agent given only/independent sub-agent (round ${SEEDROUND:-3}) given only/' /verif/seeded/$name/meta.json 2>/dev/null
